@@ -183,6 +183,14 @@ func init() {
 		fr.m.obsLog = append(fr.m.obsLog, obsEntry{label: strOf(args[0]), vals: append([]value(nil), strBytes(args[1])...)})
 		return nil
 	}
+	harnessAPI["verifTag"] = func(fr *frame, args []value) value {
+		g := fr.m.cur
+		g.tag = int(fr.cint(args[0]))
+		if g.startGate > 0 && g.startGate <= len(fr.m.gates) {
+			fr.m.gates[g.startGate-1].Park.G = g.tag
+		}
+		return &nativeFn{name: "verifTagDone", f: func(fr *frame, _ []value) value { return nil }}
+	}
 	harnessAPI["verifQuiesce"] = func(fr *frame, args []value) value {
 		m := fr.m
 		self := m.cur
@@ -523,6 +531,29 @@ func init() {
 		return uptr{}
 	})
 
+	// go-arena Pool: Acquire hands out an item without arena (nil arena = plain make/new); Release is a no-op.
+	reg("(*github.com/wundergraph/go-arena.Pool).Acquire", func(fr *frame, args []value) value {
+		var cell value = structure{iface{}, args[1]}
+		return &cell
+	})
+	reg("(*github.com/wundergraph/go-arena.Pool).Release (*github.com/wundergraph/go-arena.Pool).ReleaseMany", func(fr *frame, args []value) value {
+		return nil
+	})
+
+	// context.WithValue: the real one checks key comparability through reflectlite
+	reg("context.WithValue", func(fr *frame, args []value) value {
+		parent := args[0].(iface)
+		if parent.t == nil {
+			rtPanic("cannot create context from nil parent")
+		}
+		if k := args[1].(iface); k.t == nil {
+			rtPanic("nil key")
+		}
+		t := fr.fn.Pkg.Type("valueCtx").Type()
+		var cell value = structure{parent, args[1], args[2]}
+		return iface{t: types.NewPointer(t), v: &cell}
+	})
+
 	registerSync(reg)
 	registerFmt(reg)
 }
@@ -803,7 +834,7 @@ func (m *Machine) assert(fr *frame, c value, label string) {
 }
 
 func (m *Machine) violation(fr *frame, kind, label, detail string) {
-	v := Violation{Label: label, Kind: kind, Detail: detail, Model: cloneModel(m.model), Nondets: m.evalNondets(), Trail: append([]Decision(nil), m.trail[:m.dpos]...), Sched: append([]int(nil), m.sched...)}
+	v := Violation{Label: label, Kind: kind, Detail: detail, Model: cloneModel(m.model), Nondets: m.evalNondets(), Trail: append([]Decision(nil), m.trail[:m.dpos]...), Sched: append([]int(nil), m.sched...), Gates: append([]GateStep(nil), m.gates...)}
 	if fr != nil {
 		v.Detail += " @ " + fr.stack()
 	}
